@@ -645,7 +645,7 @@ impl CompositionGraph {
         }
 
         // Ensure that the given name is a valid extern name
-        ComponentName::new(&name, 0).map_err(|e| {
+        let component_name = ComponentName::new(&name, 0).map_err(|e| {
             let msg = e.to_string();
             DefineTypeError::InvalidExternName {
                 name: name.to_string(),
@@ -655,6 +655,17 @@ impl CompositionGraph {
                 ),
             }
         })?;
+
+        // A type definition is exported under its name, so the name must be exportable
+        if let ComponentNameKind::Hash(_)
+        | ComponentNameKind::Url(_)
+        | ComponentNameKind::Dependency(_) = component_name.kind()
+        {
+            return Err(DefineTypeError::InvalidExternName {
+                name: name.to_string(),
+                source: anyhow::anyhow!("type name cannot be a hash, url, or dependency"),
+            });
+        }
 
         let mut node = Node::new(NodeKind::Definition, ItemKind::Type(ty), None);
         node.export = Some(name.clone());
